@@ -140,6 +140,10 @@ def run(d: str, *, workers: int = 16, timeout: int = 600, simulate: str | None =
             if not line.startswith(("Parsing file", "Semantic processing", "Linting of")):
                 if len(res["log"]) < 400:
                     res["log"].append(line)
+            if line.startswith("Error:") and "errctx" not in res:
+                res["errctx"] = []
+            if "errctx" in res and len(res["errctx"]) < 30:
+                res["errctx"].append(line[:400])
             if time.time() > deadline:
                 res["timed_out"] = True
                 p.kill()
@@ -154,10 +158,10 @@ def run(d: str, *, workers: int = 16, timeout: int = 600, simulate: str | None =
     real_errors = [e for e in res["errors"] if "is violated" not in e and not e.startswith("Error: The behavior up to")
                    and not e.startswith("Error: The following behavior")]
     if real_errors and not res["violations"] and not res["timed_out"]:
-        raise TlcError("\n".join(res["log"][-60:]))
+        raise TlcError("\n".join(res.get("errctx", []) + ["..."] + res["log"][-15:]))
     if res["rc"] not in (0, None) and not res["violations"] and not res["timed_out"] and not simulate:
         if res["rc"] != 12:  # 12 = safety violation
-            raise TlcError(f"TLC exit code {res['rc']}\n" + "\n".join(res["log"][-60:]))
+            raise TlcError(f"TLC exit code {res['rc']}\n" + "\n".join(res.get("errctx", []) + ["..."] + res["log"][-15:]))
     return res
 
 
